@@ -553,3 +553,91 @@ func c07Run(tb rapid.TB, c c07Case) {
 func TestVerifC07_AckRouting(t *testing.T) {
 	vRun(t, "C07", vOpts{CurFile: true}, c07Gen, c07Run)
 }
+
+// ---------------------------------------------------------------------------
+// an acknowledgement that takes seconds, on a connection with a keep-alive value, while other requests come and go
+
+type c07SlowCase struct {
+	Kind      string `json:"kind"`      // pub1 pub2 sub unsub: the slow request
+	KeepAlive int    `json:"keepAlive"` // seconds requested in CONNECT
+	Others    int    `json:"others"`    // requests made (and acknowledged at once) while the slow one waits
+}
+
+func TestVerifC07_SlowAck(t *testing.T) {
+	vRun(t, "C07", vOpts{CurFile: true}, func(rt *rapid.T) c07SlowCase {
+		return c07SlowCase{Kind: rapid.SampledFrom([]string{"pub1", "pub2", "sub", "unsub"}).Draw(rt, "kind"), KeepAlive: 1, Others: rapid.IntRange(1, 3).Draw(rt, "others")}
+	}, func(tb rapid.TB, c c07SlowCase) {
+		r := newBaseRig()
+		defer r.shutdown()
+		held := -1
+		r.peer.auto = func(p *bpeer, pk refPacket) {
+			isReq := pk.Type == rtPublish || pk.Type == rtSubscribe || pk.Type == rtUnsubscribe
+			if isReq && held < 0 {
+				held = pk.ID // the first request: answered much later
+				return
+			}
+			bpeerBrokerAuto(p, pk)
+		}
+		r.connect(tb, WithKeepAlive(uint16(c.KeepAlive)))
+		ctx, cancel := context.WithTimeout(context.Background(), 60*time.Second)
+		defer cancel()
+		ret := make(chan error, 1)
+		go func() {
+			switch c.Kind {
+			case "pub1":
+				ret <- r.cli.Publish(ctx, &Message{Topic: "slow", QoS: QoS1, Payload: []byte("s")})
+			case "pub2":
+				ret <- r.cli.Publish(ctx, &Message{Topic: "slow", QoS: QoS2, Payload: []byte("s")})
+			case "sub":
+				_, err := r.cli.Subscribe(ctx, Subscription{Topic: "slow", QoS: QoS1})
+				ret <- err
+			default:
+				ret <- r.cli.Unsubscribe(ctx, "slow")
+			}
+		}()
+		isReq := func(pk refPacket) bool {
+			return pk.Type == rtPublish || pk.Type == rtSubscribe || pk.Type == rtUnsubscribe
+		}
+		if !r.peer.waitRecv(20*time.Second, isReq, 1) {
+			vFailf(tb, r.log.strings(20), "the slow request was not written")
+		}
+		// longer than two keep-alive periods (the client itself is not pinged here: nothing ends the connection)
+		time.Sleep(time.Duration(2*c.KeepAlive)*time.Second + 300*time.Millisecond)
+		for i := 0; i < c.Others; i++ {
+			if err := r.cli.Publish(ctx, &Message{Topic: "other", QoS: QoS1, Payload: []byte("o")}); err != nil {
+				vFailf(tb, r.log.strings(30), "request %d made while the slow one waits failed: %v", i, err)
+			}
+		}
+		select {
+		case err := <-ret:
+			vFailf(tb, r.log.strings(30), "the slow %s returned (%v) before its acknowledgement was sent", c.Kind, err)
+		default:
+		}
+		r.peer.mu.Lock()
+		id := held
+		r.peer.mu.Unlock()
+		switch c.Kind {
+		case "pub1":
+			r.peer.send(refPacket{Type: rtPubAck, ID: id})
+		case "pub2":
+			r.peer.send(refPacket{Type: rtPubRec, ID: id})
+			if !r.peer.waitRecv(20*time.Second, func(pk refPacket) bool { return pk.Type == rtPubRel && pk.ID == id }, 1) {
+				vFailf(tb, r.log.strings(30), "no PUBREL after the (late) PUBREC of the slow publish: its own acknowledgement did not reach it")
+			}
+			r.peer.send(refPacket{Type: rtPubComp, ID: id})
+		case "sub":
+			r.peer.send(refPacket{Type: rtSubAck, ID: id, Codes: []int{1}})
+		default:
+			r.peer.send(refPacket{Type: rtUnsubAck, ID: id})
+		}
+		vCount("C07", true, vJSON(c), []string{"slow-ack:" + c.Kind}, func() interface{} { return c })
+		select {
+		case err := <-ret:
+			if err != nil {
+				vFailf(tb, r.log.strings(30), "the slow %s failed although its own acknowledgement arrived: %v", c.Kind, err)
+			}
+		case <-time.After(20 * time.Second):
+			vFailf(tb, map[string]interface{}{"log": r.log.strings(30), "goroutines": vGoroutineDump()}, "the slow %s (id %d) has not returned 20 s after its own acknowledgement was sent", c.Kind, id)
+		}
+	})
+}
